@@ -5,7 +5,7 @@ from .. import env, genval, gentypes, drive, model
 from ..common import observe, build_type
 from ..ctx import short
 from ..deepeq import deep_typed_eq
-from ..tyast import Ty, describe, skeleton, build, py_class
+from ..tyast import Ty, describe, skeleton, build, py_class, _serial
 from . import c07
 
 PLAN = {
@@ -243,6 +243,38 @@ def run(ctx):
             ctx.count('duplicate_tag_types_refused')
 
     drive.for_each_case(ctx, 'dup-inherited', max(20, ctx.budget // 10), body_dup_inherited, gen=lambda c, r: Ty('int'))
+
+    # tags that are EQUAL without being of one kind (1 / True / 1.0, a str- or int-mixin enum member and its plain value) are one tag
+    # to the dispatch table (and to the data, which cannot tell them apart): refused like any other duplicate
+    def body_dup_cross_kind(i, rng, ty, T):
+        import enum as _enum
+
+        class KS(str, _enum.Enum):
+            b = 'b'
+
+        class KI(int, _enum.Enum):
+            one = 1
+        a, b = rng.choice(((1, True), (0, False), (1, 1.0), (True, 1.0), (KS.b, 'b'), (KI.one, 1), (KI.one, True), (2, 2.0), (0, -0.0)))
+        if rng.random() < 0.5:
+            a, b = b, a
+        ext = rng.choice((False, True, ('t', 'c')))
+
+        def mk(tag, other):
+            return type(f"CK{next(_serial)}", (env.PaneBase,), {'__annotations__': {'kind': t.Literal[tag], other: int}, 'kind': tag, other: 0, '__module__': __name__})
+        third = mk('zz', 'w') if rng.random() < 0.5 else None
+        variants = [mk(a, 'x')] + ([third] if third and rng.random() < 0.5 else []) + [mk(b, 'y')] + ([third] if third else [])
+        variants = list(dict.fromkeys(variants))
+        U = t.Annotated[t.Union[tuple(variants)], env.m_annotations.Tagged('kind', external=ext)]
+        out = observe(env.make_converter, U)
+        ctx.case(('duplicate-tags-cross-kind', type(a).__name__, type(b).__name__, str(ext), out.kind))
+        if out.kind == 'value' or not isinstance(out.exc, TypeError):
+            ctx.violation('duplicate-tags-refused', 'dup-cross-kind', i, {'tags': [repr(a), repr(b)], 'layout': str(ext), 'make_converter': out.brief()},
+                          mech='duplicate-tags-accepted:equal-tags-of-different-kinds')
+        else:
+            ctx.count('duplicate_tag_types_refused')
+            ctx.count('cross_kind_duplicate_tags_refused')
+
+    drive.for_each_case(ctx, 'dup-cross-kind', max(20, ctx.budget // 10), body_dup_cross_kind, gen=lambda c, r: Ty('int'))
 
     # variants that are more than a bare class: a subscripted generic dataclass (Box[int]) and a dataclass under a condition.
     # The tag picks the variant; the body is then judged by THAT member as written (type argument, condition), in every layout.
